@@ -140,6 +140,42 @@ def notrace():
     return NoTracing() if is_tracing() else contextlib.nullcontext()
 
 
+class StoredSubst(ExcelOpxWrapper):
+    """stored-results wrapper (formulas workbook + data_only workbook) whose stored value of chosen cells is
+    replaced by a (possibly symbolic) value"""
+
+    def __init__(self, tname, subst):
+        super().__init__("virt.xlsx")
+        self.workbook = make_workbook(tname)
+        self.workbook_dataonly = make_workbook(tname, values_only=dict(stored_values(tname)))
+        self.load_array_formulas()
+        self.subst = dict(subst)
+
+    def get_range(self, address):
+        data = super().get_range(address)
+        if isinstance(data.values, tuple):
+            rows = AddressRange(data.address).rows if ":" in str(data.address) else None
+            if rows is None:
+                return data
+            new, changed = [], False
+            for row_addr, row in zip(rows, data.values):
+                nrow = []
+                for a, val in zip(row_addr, row):
+                    if a.address in self.subst:
+                        nrow.append(self.subst[a.address])
+                        changed = True
+                    else:
+                        nrow.append(val)
+                new.append(tuple(nrow))
+            if changed:
+                return ExcelWrapper.RangeData.__new__(type(data), data.address, data.formula, tuple(new))
+            return data
+        a = data.address.address
+        if a in self.subst:
+            return ExcelWrapper.RangeData.__new__(type(data), data.address, data.formula, self.subst[a])
+        return data
+
+
 def _untraced(fn):
     def wrapper(*a, **kw):
         if is_tracing():
@@ -162,7 +198,13 @@ def stored_values(tname):
     """consistent stored results of the template (computed once, concretely, by a scratch compile)"""
     if tname not in _STORED:
         m = ExcelCompiler(excel=make_workbook(tname))
-        _STORED[tname] = {a: m.evaluate(a) for a in all_cells(tname)}
+        vals = {}
+        for a in all_cells(tname):
+            try:
+                vals[a] = m.evaluate(a)
+            except Exception:  # noqa  (templates with an unknown function: no stored result)
+                vals[a] = None
+        _STORED[tname] = vals
     return _STORED[tname]
 
 
